@@ -212,8 +212,9 @@ def _group(statements):
 
 
 class Design:
-    def __init__(self, top, inputs=(), consts=(), extra_clock_domains=("sys",), name="dut"):
+    def __init__(self, top, inputs=(), consts=(), extra_clock_domains=("sys",), name="dut", stable_names=None):
         self.name = name
+        self._names = dict(stable_names or {})
         if isinstance(top, _Fragment):
             fragment = top
         else:
@@ -266,7 +267,6 @@ class Design:
                 for s in gt:
                     self._sync_group_of[s] = g
         self.regs = sorted(reg_domain.keys(), key=lambda s: s.duid)
-        self._names = {}
         self._tvars = {}      # Signal -> template z3 var (regs, inputs, consts)
         self._comb_val = {}   # Signal -> Val (template term)
         self._in_progress = set()
@@ -339,6 +339,45 @@ class Design:
             v = Val(z3.simplify(v.t), v.s)
             self._next[s] = v
         return v
+
+    # ---- cone of influence ---------------------------------------------------------------------
+    def term_support(self, term):
+        """set of Signals (registers / inputs / consts) a template term depends on"""
+        if not hasattr(self, "_tv_back"):
+            self._tv_back = {v.get_id(): s for s, v in self._tvars.items()}
+            self._supp_cache = {}
+        out = set()
+        seen = set()
+        st = [term]
+        while st:
+            x = st.pop()
+            i = x.get_id()
+            if i in seen:
+                continue
+            seen.add(i)
+            s = self._tv_back.get(i)
+            if s is not None:
+                out.add(s)
+                continue
+            st.extend(x.children())
+        return out
+
+    def cone(self, roots, root_exprs=()):
+        """registers and inputs/consts in the sequential cone of influence of root signals"""
+        need = set()
+        work = []
+        for s in roots:
+            work.extend(self.term_support(self.sig_val(s).t))
+        for e in root_exprs:
+            work.extend(self.term_support(self.eval(e).t))
+        while work:
+            s = work.pop()
+            if s in need:
+                continue
+            need.add(s)
+            if s in self.reg_domain:
+                work.extend(self.term_support(self.next_val(s).t))
+        return need
 
     # ---- expression evaluation -----------------------------------------------------------------
     def eval(self, node, env=None, postcommit=False):
@@ -626,9 +665,12 @@ class Unroller:
     of domain names, or "free" (one Boolean per domain per frame, `tick(cd,t)`).
     """
 
-    def __init__(self, design, free_init=(), schedule=None, tag=""):
+    def __init__(self, design, free_init=(), schedule=None, tag="", cone=None):
         self.d = design
         self.tag = tag
+        self.cone = cone
+        self.regs = [s for s in design.regs if cone is None or s in cone]
+        self.inputs = [s for s in design.inputs if cone is None or s in cone]
         self.schedule = schedule
         self.free_init = set(free_init)
         self.frames = []       # list of dict template-var -> frame term (z3 substitution list)
@@ -638,7 +680,7 @@ class Unroller:
         self.tick_vars = []
         self._cache = {}
         self._mk_frame()
-        for s in design.regs:
+        for s in self.regs:
             if s not in self.free_init:
                 rv = s.reset.value & (2**len(s) - 1)
                 self.constraints.append(self.fvars[0][s] == z3.BitVecVal(rv, len(s)))
@@ -651,9 +693,9 @@ class Unroller:
         t = len(self.frames)
         d = self.d
         fv = {}
-        for s in d.regs:
+        for s in self.regs:
             fv[s] = z3.BitVec("S%d!%s%s" % (t, self.tag, d.sig_name(s)), len(s))
-        for s in d.inputs:
+        for s in self.inputs:
             fv[s] = z3.BitVec("I%d!%s%s" % (t, self.tag, d.sig_name(s)), len(s))
         for s in d.consts:
             fv[s] = self.const_vars[s]
@@ -677,7 +719,7 @@ class Unroller:
             t = self.K
             self._mk_frame()
             cur, nxt = self.fvars[t], self.fvars[t + 1]
-            for s in d.regs:
+            for s in self.regs:
                 tk = self.ticks(d.reg_domain[s], t)
                 if tk is False:
                     self.constraints.append(nxt[s] == cur[s])
